@@ -1295,3 +1295,34 @@ Proof.
   intros all kept s' Hin. apply repoint_all_In in Hin. destruct Hin as [s [Hs ->]].
   exists s. split; [exact Hs|]. split; [reflexivity|]. simpl. apply repoint_one_post.
 Qed.
+
+(* ================================================================== a delete reaches EVERY registration of a path *)
+(* A path may be listed more than once -- by several manifests (append_files accepts a file that is already
+   registered) or several times in one manifest.  No entry that survives a delete is named by it, wherever in the
+   manifest list it was and however many other registrations of the same path came before it. *)
+Theorem delete_complete : forall ps mfs e, In e (entries (apply_deletes ps mfs)) -> named ps e = false.
+Proof.
+  intros ps mfs e H. destruct (apply_deletes_entry ps mfs e H) as [e0 [_ [Hk Hn]]].
+  unfold ekey in Hk. inversion Hk as [[Hp Ha Hs]]. unfold named in *. rewrite <- Hp. exact Hn.
+Qed.
+
+(* ... and for the snapshot a transaction commits: an entry named by one of the queued deletes can only be one
+   of this transaction's own appends (ADDED, stamped with the new snapshot) -- nothing carried from the base. *)
+Theorem txn_delete_complete : forall st ops id t tu f st' s e,
+  step_full st (Txn ops id t tu f) = (st', Committed, Some s) ->
+  In e (entries (mlist s)) -> named (tx_dels ops) e = true ->
+  estatus e = ST_ADDED /\ eadded e = id /\ eseq e = seq s /\ In (epath e) (tx_adds ops).
+Proof.
+  intros st ops id t tu f st' s e H Hin Hn.
+  destruct (step_full_txn st ops id t tu f) as [[_ E]|[E|E]]; rewrite E in H.
+  - discriminate.
+  - unfold txn_metaonly in H. discriminate.
+  - unfold txn_fileops in H. destruct (base_manifests (md st)) as [base|]; [|discriminate]. cbv zeta in H.
+    destruct (create_snapshot _ _ _ _ _); [|discriminate]. inversion H; subst. clear H.
+    unfold new_snap in Hin. simpl in Hin. unfold entries in Hin. rewrite concat_app in Hin. apply in_app_or in Hin.
+    destruct Hin as [Hin|Hin].
+    + fold (entries (apply_deletes (tx_dels ops) base)) in Hin. apply delete_complete in Hin. congruence.
+    + fold (entries (append_manifest id (last_seq (md st) + 1) (tx_adds ops))) in Hin.
+      rewrite append_manifest_entries in Hin. apply in_map_iff in Hin. destruct Hin as [p [<- Hp]].
+      simpl. repeat split; try reflexivity. exact Hp.
+Qed.
